@@ -161,6 +161,7 @@ def lagrange_diff_rows(ts, rows):
 
 class C20(Family):
     prop = "C20"
+    extra_modules = ["CtrlVerif.Props.C20Cert"]    # the construction always passes its certificate
     externals = ["numpy.linalg.lstsq (minimum-norm solution; the model computes M^T (M M^T)^-1 Z by a "
                  "certified exact solve, agreement is part of the correspondence)",
                  "numpy.poly / numpy.linalg.solve / inv / matrix_rank in reachable_form (exact "
